@@ -65,6 +65,19 @@ CLAIMED = {
         technique="static analysis: sibling (dual) agreement of effect summaries with data-flow source signatures, must-pass-through, "
         "self-dependence of member updates in set_up",
     ),
+    "C06": dict(
+        text="Static analysis of the current source. Decides: the subset enumeration lists each is_basic (view,segment) of the residue class "
+        "view = min_view+subset_num (mod num_subsets) exactly once, so the subsets' lists are disjoint and cover every basic view/segment "
+        "for every number of views, subsets and segments; the 'balanced' test re-implements exactly those loops and compares all counts "
+        "for equality; every consumer (distributable computation, both projectors, normalisation, Hessians, FBP2D) takes its list from "
+        "that one function with its own subset arguments; the ordered schedule advances the subset index by one per sub-iteration, the "
+        "random schedule indexes with the expression of its regeneration test and the random order exists before its first read for "
+        "every start sub-iteration (abstract interpretation); the view symmetries are off whenever num_views is not divisible by 4 "
+        "resp. 2 on every constructor path. NOT decided: that randomly_permute_subset_order returns a permutation; that "
+        "is_basic/related views partition the views for each symmetry class (modular arithmetic over num_views).",
+        technique="static analysis: normalised loop descriptors, sibling agreement, resolved-callee argument pass-through, "
+        "finite-domain abstract interpretation over clang CFG",
+    ),
 }
 
 NOT_APPLICABLE = {
